@@ -168,3 +168,59 @@ Example C08_lru_source_init_ex :
   | _ => False
   end.
 Proof. cbv zeta. split; vm_compute; reflexivity. Qed.
+
+(* LRU() with the GENERATED comparePrio handed to heapq.New: the same Config, the queue empty, and
+   the queue's comparison function answers like the model's compare_prio on every pair.  (The
+   history theorems take the model's function VALUE: identifying the two would need function
+   extensionality, which is not assumed.) *)
+Theorem C08_LRU_generated_cmp_source :
+  forall (K V Ev : Type),
+    exists q : queue (prio K V),
+      @gen_LRU_gcmp K V Ev = N.mk_Config (Some (N.mk_lruStore [] q 0)) None None /\
+      data q = [] /\ (forall a b : prio K V, qcmp q a b = compare_prio K V a b).
+Proof. exact @LRU_generated_cmp_source. Qed.
+Print Assumptions C08_LRU_generated_cmp_source.
+Example C08_LRU_generated_cmp_source_ex :
+  option_map (fun s => qcmp (N.lruStore_access s) (Build_prio Z Z 3 0 0) (Build_prio Z Z 5 1 1)) (N.Config_store (@gen_LRU_gcmp Z Z unit)) = Some (-1).
+Proof. reflexivity. Qed.
+
+(* C08_lru_settled_source and C08_refines_S2_over_repaired_heap_source from the generated constructor. *)
+Theorem C08_lru_settled_source_init :
+  forall (K V Ev : Type) (keqb : K -> K -> bool),
+    (forall a b, keqb a b = true <-> a = b) ->
+  forall (kzero : K) (vzero : V) (sz : option (V -> Z)) (cb : option (K -> V -> list Ev)),
+  forall (hv : variant), pop_no_siftup hv = true ->
+  forall (lim : Z) (ops : list (op K V)),
+    0 < lim ->
+    settled K V keqb vzero (size_or_one sz) lim true [] ops = true ->
+    exists c0,
+      gen_new lim sz cb = FnRt.Ok c0 /\
+      grun_cache keqb kzero vzero hv c0 ops = map FnRt.Ok (s2_run K V keqb vzero (size_or_one sz) lim [] ops).
+Proof. exact lru_settled_source_init. Qed.
+Print Assumptions C08_lru_settled_source_init.
+Example C08_lru_settled_source_init_ex :
+  settled Z Z Z.eqb 0 (fun _ => 1) 2 true [] [OPut 1 10; OPut 2 20; OGet 1; OPut 3 30; OGet 2] = true /\
+  match @gen_new Z Z unit 2 None None with
+  | FnRt.Ok c0 => grun_cache Z.eqb 0 0 pinned c0 [OPut 1 10; OPut 2 20; OGet 1; OPut 3 30; OGet 2]
+                  = map FnRt.Ok [(RBool true, []); (RBool true, []); (RGet 10 true, []); (RBool true, [(2, 20)]); (RGet 0 false, [])]
+  | _ => False
+  end.
+Proof. split; vm_compute; reflexivity. Qed.
+
+Theorem C08_refines_S2_over_repaired_heap_source_init :
+  forall (K V Ev : Type) (keqb : K -> K -> bool),
+    (forall a b, keqb a b = true <-> a = b) ->
+  forall (kzero : K) (vzero : V) (sz : option (V -> Z)) (cb : option (K -> V -> list Ev)),
+  forall (lim : Z) (ops : list (op K V)),
+    0 < lim ->
+    exists c0,
+      gen_new lim sz cb = FnRt.Ok c0 /\
+      grun_cache keqb kzero vzero repaired c0 ops = map FnRt.Ok (s2_run K V keqb vzero (size_or_one sz) lim [] ops).
+Proof. exact refines_S2_repaired_source_init. Qed.
+Print Assumptions C08_refines_S2_over_repaired_heap_source_init.
+Example C08_refines_S2_over_repaired_heap_source_init_ex :
+  match @gen_new Z Z unit 7 (Some (fun _ => 1)) None with
+  | FnRt.Ok c0 => nth 14 (grun_cache Z.eqb 0 0 repaired c0 CacheWitness.f2_history) FnRt.OutOfFuel = FnRt.Ok (RBool true, [(5, 15)])
+  | _ => False
+  end.
+Proof. vm_compute. reflexivity. Qed.
